@@ -98,6 +98,7 @@ type Agg struct {
 	Samples     []json.RawMessage
 	Violations  []Violation
 	HarnessErrs []string
+	Unconfirmed []string
 	// Fingerprints: every violation fingerprint seen (known findings included) -> number of cases showing it
 	Fingerprints map[string]int
 }
@@ -221,6 +222,15 @@ func WorkerMain(args []string) int {
 			os.Exit(3)
 		})
 		r := safeRun(c, i)
+		// a harness-level error (could not copy a directory, could not read a state dump ...) says nothing about the
+		// application: the case is executed again; only an error that persists is reported
+		for k := 0; k < 2 && r.Err != ""; k++ {
+			r = safeRun(c, i)
+			if r.Counters == nil {
+				r.Counters = map[string]int{}
+			}
+			r.Counters["cases_re-executed_after_a_harness_error"]++
+		}
 		wd.Stop()
 		_ = enc.Encode(r)
 		w.Flush()
@@ -590,6 +600,14 @@ func CheckMain(id, tier string) int {
 			if meta.MinRepro > 0 {
 				need = meta.MinRepro
 			}
+			if rep == 0 {
+				// seen once, never again in 5 re-executions of the same case: nothing the explored (deterministic) space
+				// contains; recorded, not believed and not hidden
+				msg := fmt.Sprintf("observation %q of case %d was not reproduced in 5 re-executions of the same case (transient of the environment, outside the explored space)", fp, idx)
+				agg.Unconfirmed = append(agg.Unconfirmed, msg)
+				fmt.Fprintln(os.Stderr, "UNCONFIRMED:", msg)
+				continue
+			}
 			if rep < need {
 				agg.HarnessErrs = append(agg.HarnessErrs, fmt.Sprintf("violation %q of case %d reproduced %d/5 times: harness nondeterminism", fp, idx, rep))
 				continue
@@ -723,6 +741,9 @@ func writeEvidence(c Check, meta Meta, tier string, seed int64, a *Agg, complete
 	}
 	if len(guards) > 0 {
 		cov["vacuity_guards_failed"] = guards
+	}
+	if len(a.Unconfirmed) > 0 {
+		cov["unconfirmed_observations(seen once, 0/5 on re-execution)"] = a.Unconfirmed
 	}
 	if len(a.HarnessErrs) > 0 {
 		cov["harness_errors"] = a.HarnessErrs
